@@ -505,6 +505,7 @@ type worldResult struct {
 	SrvStdout    string
 	Term         string
 	C2S, S2C     []byte // wire next to the server
+	SrvTunGot    []byte // what arrived at the server's end of the tunnel
 	ClientGot    []byte // everything that reached the client (in-band and tunnel)
 	TunMsgsC2S, TunMsgsS2C int
 	TunLogC2S    []vs.Stamp
@@ -1034,6 +1035,7 @@ func (w *world) result(s *vs.Sched) *worldResult {
 		}
 		if strings.HasSuffix(c.Name, ".server") && c.Tag == w.srvConnTag() {
 			srvStreams = append(srvStreams, c.Sent())
+			r.SrvTunGot = c.Received()
 		}
 	}
 	for _, st := range cliStreams {
